@@ -59,9 +59,12 @@ BOUNDS = {
              "rotation/commutation on every shape with sides <= 5 and at most 16 pixels, with every region inside it (region bounds are solver "
              "integers, the slice bounds are concretised by forking) and, without concretisation, per-pixel membership/position for every shape <= 6x6 (pixel permutation "
              "taken from the real rotate_array on a label array); extraction through Layout2D/Array2D on every shape <= 3x3 with every "
-             "region and every window inside it, Layout1D on lengths <= 5",
+             "region and every window inside it, Layout1D on lengths <= 5; masked Array2D objects with a history (fresh / in-place update over "
+             "the region / derived by arithmetic / skip_mask buffer; both storages): every mask with >= 1 masked and >= 1 unmasked pixel of every "
+             "shape with <= 4 pixels and of 2x3 (masks by forking), every region, every corner, values and increment symbolic reals",
     "thorough": "same integer laws; array rotation/commutation on every shape <= 7x7, label-permutation law <= 8x8, "
-                "array extraction on shapes <= 4x4, Layout1D lengths <= 8; CrossHair per-condition timeout 300 s",
+                "array extraction on shapes <= 4x4, Layout1D lengths <= 8; masked Array2D histories: every mask of shapes with <= 6 pixels; "
+                "CrossHair per-condition timeout 300 s",
 }
 OUTSIDE = [
     "array shapes beyond the enumerated bounds for the array-level laws (the integer laws carry the shape as a solver integer)",
@@ -683,6 +686,96 @@ def case_orientation_slim(ctx, H, W):
     hx.run_body(ctx, body_orientation_slim, {"v": V.real_array("v", (H, W)), "corner": _corner(ctx)}, {"H": H, "W": W}, known=kn, validate_every=1)
 
 
+# ----------------------------------------------------------------------------------------------- rotation: masked arrays with a history
+
+def body_masked_orientation(inp, H, W):
+    """masked Array2D objects (mask forked, both storages): regions index `array.native` (masked pixels are 0 there), so
+    original_orientation must be the corner rotation of `array.native` for every history of the object - fresh, after an
+    in-place update over a region that overlaps masked pixels (`arr[region.slice] += d`), and for native_skip_mask-style
+    objects whose buffer holds values under the mask"""
+    from autoarray.structures.header import Header
+    mask = np.array(inp["mask"], dtype=bool).reshape(H, W)
+    v = np.asarray(inp["v"]).reshape(H, W)
+    d = inp["d"][0] if not np.isscalar(inp["d"]) else inp["d"]
+    corner = _conc_corner(inp["corner"])
+    c = [int(x) for x in _il(inp["r"])]          # region of the layout AND window of the in-place update (forked)
+    A, E = {}, {}
+    m = aa.Mask2D(mask=mask, pixel_scales=1.0)
+    keep = np.invert(mask)
+    zeroed = np.empty((H, W), dtype=object)
+    upd = np.empty((H, W), dtype=object)
+    for i in range(H):
+        for j in range(W):
+            zeroed[i, j] = v[i, j] if keep[i, j] else 0.0
+            inr = c[0] <= i < c[1] and c[2] <= j < c[3]
+            upd[i, j] = (v[i, j] + d if inr else v[i, j]) if keep[i, j] else 0.0
+    reg = aa.Region2D(tuple(c))
+    lay = aa.Layout2D(shape_2d=(H, W), original_roe_corner=corner, parallel_overscan=tuple(c))
+    lay_rot = lay.new_rotated_from(roe_corner=corner)
+    rot = lambda x: layout_util.rotate_array_via_roe_corner_from(array=x, roe_corner=corner)
+
+    def laws(tag, arr, native_ref):
+        """all facts about one Array2D object whose native form must be native_ref"""
+        nat = hx.attempt(lambda: np.asarray(hx.unwrap(arr.native)))
+        A[tag + ".native"], E[tag + ".native"] = _vals(nat), native_ref
+        ori = hx.attempt(lambda: np.asarray(hx.unwrap(arr.original_orientation)))
+        A[tag + ".original_orientation"], E[tag + ".original_orientation"] = _vals(ori), ref_flip(native_ref, corner)
+        if isinstance(ori, hx.Raised) or np.asarray(ori).shape != (H, W):
+            return
+        content = native_ref[c[0]:c[1], c[2]:c[3]]
+        A[tag + ".extract"] = _vals(hx.attempt(lambda: lay.extract_parallel_overscan_array_2d_from(array=arr).native))
+        E[tag + ".extract"] = content
+        A[tag + ".commute"] = _vals(hx.attempt(lambda: ori[lay_rot.parallel_overscan.slice]))
+        E[tag + ".commute"] = ref_flip(content, corner)
+        A[tag + ".same_rotation_twice"] = _vals(hx.attempt(lambda: rot(ori)))
+        E[tag + ".same_rotation_twice"] = native_ref
+
+    for sn in (False, True):
+        tag = "sn%d" % sn
+        arr = hx.attempt(lambda: aa.Array2D(values=v.copy(), mask=m, header=Header(original_roe_corner=corner), store_native=sn))
+        if isinstance(arr, hx.Raised):
+            A[tag + ".Array2D"], E[tag + ".Array2D"] = arr, "constructed"
+            continue
+        laws(tag + ".fresh", arr, zeroed)
+        if sn:
+            # history: in-place update over the region (the add / zero region idiom); masked pixels inside it now hold d in the buffer
+            r = hx.attempt(lambda: arr.__setitem__(reg.slice, arr[reg.slice] + d))
+            if isinstance(r, hx.Raised):
+                A[tag + ".inplace_update"], E[tag + ".inplace_update"] = r, "no exception"
+                continue
+            laws(tag + ".updated", arr, upd)
+        else:
+            # slim storage has no 2D in-place window; history through arithmetic (a derived object)
+            arr2 = hx.attempt(lambda: arr + d)
+            if isinstance(arr2, hx.Raised):
+                A[tag + ".plus"], E[tag + ".plus"] = arr2, "no exception"
+                continue
+            plus = np.empty((H, W), dtype=object)
+            for i in range(H):
+                for j in range(W):
+                    plus[i, j] = v[i, j] + d if keep[i, j] else 0.0
+            laws(tag + ".plus", arr2, plus)
+    # an object whose buffer holds the raw values under the mask without any history (native_skip_mask-style construction)
+    raw = hx.attempt(lambda: aa.Array2D(values=v.copy(), mask=m, header=Header(original_roe_corner=corner), store_native=True, skip_mask=True))
+    if isinstance(raw, hx.Raised):
+        A["skip_mask.Array2D"], E["skip_mask.Array2D"] = raw, "constructed"
+    else:
+        laws("skip_mask", raw, zeroed)
+    return A, E
+
+
+def case_masked_orientation(ctx, H, W):
+    mb = V.bool_array("m", (H, W))
+    ctx.assume(z3.Or(*[z3.Not(b.t) for b in mb.reshape(-1)]))        # at least one unmasked pixel
+    ctx.assume(z3.Or(*[b.t for b in mb.reshape(-1)]))                 # at least one masked pixel (unmasked arrays: case_rotate_array)
+    mask = ctx.concrete_bools(mb)
+    ctx.set_case(mask=mask.tolist())
+    r = _ints(ctx, "r", 4)
+    _valid2d(ctx, r, (H, W))
+    inputs = {"mask": mask, "v": V.real_array("v", (H, W)), "d": [V.real("d")], "r": r, "corner": _corner(ctx)}
+    hx.run_body(ctx, body_masked_orientation, inputs, {"H": H, "W": W}, validate_every=16)
+
+
 # ----------------------------------------------------------------------------------------------- extraction: arrays
 
 def body_extract_array(inp, H, W):
@@ -908,7 +1001,7 @@ BODIES = {
     "case_ctor": body_ctor, "case_sub2d": body_sub2d, "case_sub1d": body_sub1d, "case_extract_1d": body_extract_1d,
     "case_extract_2d": body_extract_2d, "case_layout_extracted": body_layout_extracted, "case_rotate_region": body_rotate_region,
     "case_rotate_layout": body_rotate_layout, "case_rotate_perm": body_rotate_perm, "case_rotate_array": body_rotate_array,
-    "case_orientation_slim": body_orientation_slim, "case_extract_array": body_extract_array, "case_layout_1d": body_layout_1d,
+    "case_orientation_slim": body_orientation_slim, "case_masked_orientation": body_masked_orientation, "case_extract_array": body_extract_array, "case_layout_1d": body_layout_1d,
 }
 
 
@@ -950,6 +1043,14 @@ def cases(tier):
         out.append(("case_orientation_slim", {"H": H, "W": W}))
     for N in range(1, n1_max + 1):
         out.append(("case_layout_1d", {"N": N}))
+    # masked Array2D objects with a history: (masks with >=1 masked and >=1 unmasked pixel) x corners x regions
+    mo = []
+    for H in range(1, 5):
+        for W in range(1, 5):
+            if H * W >= 2 and (H * W <= (4 if quick else 6) or (quick and (H, W) == (2, 3))):
+                n = (2 ** (H * W) - 2) * 4 * tri(H) * tri(W)
+                mo.append((n, ("case_masked_orientation", {"H": H, "W": W}, split_for(n))))
+    out = [c for _, c in sorted(mo, key=lambda t: -t[0])] + out
     return out
 
 
